@@ -364,7 +364,7 @@ def declare_chains(ocp, chains, vec):
     return out
 
 
-def spline_program(meth, chains, N, g, vec, refine_con=1, inc=(True, True), with_offset=False):
+def spline_program(meth, chains, N, g, vec, refine_con=1, inc=(True, True), with_offset=False, refined_first=False):
     import rockit
     ocp = rockit.Ocp(t0=0.3, T=1.9)
     ch = declare_chains(ocp, chains, vec)
@@ -372,8 +372,11 @@ def spline_program(meth, chains, N, g, vec, refine_con=1, inc=(True, True), with
     if not inc[0]: kw["include_first"] = False
     if not inc[1]: kw["include_last"] = False
     for xs, u in ch:
-        ocp.subject_to(-1.5 <= (u <= 1.5))
+        if not refined_first:
+            ocp.subject_to(-1.5 <= (u <= 1.5))
         ocp.subject_to(xs[0] <= 3, refine=refine_con, **kw) if meth == "Spline" else ocp.subject_to(xs[0] <= 3, **kw)
+        if refined_first:
+            ocp.subject_to(-1.5 <= (u <= 1.5))       # the unrefined constraint is declared last
         ocp.subject_to(ocp.at_t0(xs[0]) == 0.1)
         if with_offset == "prev_t":
             # shifted the other way and with explicit time: imposed at nodes 1..N with the time of that node
@@ -393,12 +396,12 @@ def ca_sumsqr(e):
     return ca.sumsqr(e)
 
 
-def spline_path_rows(chains, N, g, vec, r, inc, with_offset=False):
+def spline_path_rows(chains, N, g, vec, r, inc, with_offset=False, refined_first=False):
     """SplineMethod NLP of a chain program with x<=3 declared with refine=r and include_first/include_last = inc:
     returns (#kept instances missing from the NLP, #kept instances, #excluded end-point instances present in the NLP)"""
     import casadi as ca
     nn = 2 if vec else 1
-    ocp2, ch2 = spline_program("Spline", chains, N, g, vec, refine_con=r, inc=inc, with_offset=with_offset)
+    ocp2, ch2 = spline_program("Spline", chains, N, g, vec, refine_con=r, inc=inc, with_offset=with_offset, refined_first=refined_first)
     nlp2 = NL.Nlp(ocp2)
     pts = [NL.generic(nlp2.nx, q, 0, lo=-0.7, hi=1.2) for q in range(3)]
     f, rows = NL.canon_rows(nlp2, pts)
@@ -513,6 +516,15 @@ def run_spline(case):
             if n_missing:
                 vios.append(dict(sig="missing:spline:path", tags=tags + ["refine=%d" % r], detail="%d of %d instances of x<=3 on the refined grid (refine=%d) are not in the NLP" % (n_missing, n_refs, r)))
                 break
+        # the refinement of a path constraint changes nothing but that constraint: same objective function
+        for r in (2, 3):
+            ocp_r, _ = spline_program("Spline", chains, N, g, vec, refine_con=r)
+            nlp_r = NL.Nlp(ocp_r)
+            if nlp_r.nx == nlp.nx:
+                f_r, f_1 = float(nlp_r.eval(w)[0]), float(nlp.eval(w)[0])
+                if not NL.close(f_r, f_1, 1e-9):
+                    vios.append(dict(sig="value:spline:objective:refine", tags=tags + ["refine=%d" % r], detail="with the path constraint refined (refine=%d) the objective at the same decision vector is %g, unrefined %g" % (r, f_r, f_1)))
+                    break
         # agreement with MultipleShooting on what both can represent: the spline trajectory closes MS's gaps (RK4 is
         # exact for chains up to length 4) and both objectives agree there
         ocpm, chm = spline_program("MS", chains, N, g, vec)
